@@ -54,6 +54,8 @@ def config_writes(oc, cfg):
             return '.'.join(t['path'])
         return None
     for a in oc['assigns']:
+        if a.get('via') == 'clone_from':
+            continue      # recorded again below as an in-place setter
         pth = path_of(a.get('target'))
         if pth is None and a.get('text', '').replace(' ', '').startswith(cfg + '.') and not a.get('via'):
             pth = a['text'].replace(' ', '')[len(cfg) + 1:]
@@ -68,9 +70,9 @@ def config_writes(oc, cfg):
 
 
 def f1(ctx, rep):
-    oc = ctx.fnx('override_configuration', file='cli/src/main.rs')
-    cfg = oc['params'][0]['name']
-    opts = oc['params'][1]['name']
+    oc0, cfg, opts = wiring.override_fn(ctx)
+    oc = ctx.x(oc0)
+    ocn = oc0['name'].split('::')[-1]
     seen = {}
     for path, value, guard, line in config_writes(oc, cfg):
         site = {'file': oc['file'], 'line': line}
@@ -107,21 +109,35 @@ def f1(ctx, rep):
             continue
         for a in f['assigns']:
             text = a.get('text', '').replace(' ', '')
-            if re.match(r'config\.', text) and f['name'] != 'override_configuration':
+            if re.match(r'config\.', text) and f['name'].split('::')[-1] != ocn:
                 n += 1
                 rep.fail('F2', f"{f['name']}:{text}", f"{f['qual']} writes {text}: settings may only be changed by override_configuration", {'file': f['file'], 'line': a.get('line')})
         for c in f['calls']:
-            if c.get('f') in ('insert', 'push', 'clear', 'extend', 'remove', 'retain') and re.match(r'config\b', vt.show(c.get('recv'))) and f['name'] != 'override_configuration':
+            if c.get('f') in ('insert', 'push', 'clear', 'extend', 'remove', 'retain') and re.match(r'config\b', vt.show(c.get('recv'))) and f['name'].split('::')[-1] != ocn:
                 rep.fail('F2', f"{f['name']}:{c['f']}", f"{f['qual']} mutates {vt.show(c.get('recv'))[:40]} — file-only settings (type mappings, decorators, constraints, acronyms) must be applied unchanged", {'file': f['file'], 'line': c.get('line')})
     # the same inventory on resolved MIR places: methods on Config, nested helpers taking `&mut config.x.y`, whole-section moves
     from .. import cg
     prog = cg.Program(ctx.mirq('all'))
     muts = wiring.config_mutations(ctx, prog)
-    rep.floor('F2', 'writes to Config seen in MIR (override_configuration as positive control)', len([m for m in muts if m[0].endswith('override_configuration')]), 7)
+    # private helpers of the override function (`replace_if_given(&mut cfg.x, &opt)`) write on its behalf: every caller of such a
+    # helper is the override function (or another such helper)
+    ok_roots = {b_['id'] for b_ in prog.bodies.values() if b_['id'].split('::')[-1] == ocn and str(b_.get('file', '')).startswith('cli/src')}
+    override_helpers = set()
+    grew = True
+    while grew:
+        grew = False
+        for b_ in prog.bodies.values():
+            if b_['kind'] not in ('fn', 'assoc_fn') or b_['id'] in ok_roots or b_['id'] in override_helpers or not str(b_.get('file', '')).startswith('cli/src'):
+                continue
+            callers = {prog.bodies[k2]['id'].split('::{closure')[0] for k2, cb_ in prog.bodies.items() for c_ in cb_['calls'] if b_['key'] in prog.targets_of_call(c_)}
+            if callers and all(x in ok_roots or x in override_helpers for x in callers):
+                override_helpers.add(b_['id'])
+                grew = True
+    rep.floor('F2', 'writes to Config seen in MIR (override_configuration as positive control)', len([m for m in muts if m[0].split('::{closure')[0].endswith(ocn) or m[0].split('::{closure')[0] in override_helpers]), 7)
     seen2 = set()
     for fid, owner, fname, st, file, line in muts:
         root = fid.split('::{closure')[0]
-        if root.endswith('override_configuration'):
+        if root.endswith(ocn) or root in override_helpers:
             continue
         key = f"{root.split('::')[-1]}:{owner.split('::')[-1]}.{fname}"
         if key in seen2:
@@ -133,12 +149,12 @@ def f1(ctx, rep):
         rep.ok('F2', 'no-other-config-writes', 'Config is only written by override_configuration')
     # call order in generate_types: load_config → override_configuration → language()
     gt = ctx.fnx('generate_types', file='cli/src/main.rs')
-    order = [c['f'] for c in gt['calls'] if c.get('f') in ('config::load_config', 'load_config', 'override_configuration', 'language')]
+    order = [('override_configuration' if c['f'] == ocn else c['f']) for c in gt['calls'] if c.get('f') in ('config::load_config', 'load_config', ocn, 'language')]
     rep.check(order[:3] == ['config::load_config', 'override_configuration', 'language'] or order[:3] == ['load_config', 'override_configuration', 'language'], 'F1', 'pipeline-order', ' → '.join(order), f'generate_types does not run load_config → override_configuration → language (found {order})', {'file': gt['file'], 'line': gt['line']})
     lang = [c for c in gt['calls'] if c.get('f') == 'language']
     if lang:
         arg = vt.strip(lang[0]['args'][1])
-        ok = 'override_configuration' in vt.show(lang[0]['args'][1])
+        ok = ocn in vt.show(lang[0]['args'][1])
         rep.check(ok, 'F1', 'language-gets-overridden-config', 'language(.., overridden config, ..)', 'language() is not given the configuration produced by override_configuration', {'file': gt['file'], 'line': lang[0].get('line')})
 
 
@@ -159,12 +175,10 @@ def f4(ctx, rep):
     rep.check(ok, 'F4', 'main:-g-stores', '-g ⇒ store_config', 'main does not route --generate-config to store_config', {'file': m['file'], 'line': m['line']})
     if stc:
         txt = vt.show(stc[0]['args'][0]) + json.dumps(stc[0]['guard'])
-        if not [g for g in ctx.astq['functions'] if g['name'].split('::')[-1] == 'override_configuration' and g['file'].startswith('cli/src/')]:
-            # the option-override step is not a function of that name any more (moved into a method, renamed): F1/F2/F4 are
-            # written against it — no verdict rather than a guess
-            raise core.Incomplete('F4: the function `override_configuration` of the CLI crate was not found (the rules on the option-override step are anchored on it)')
-        oc = [c for c in m['calls'] if c.get('f') == 'override_configuration' and any('generate_config' in vt.show(fr.get('c')) and not fr.get('neg') for fr in c['guard'] if fr.get('k') == 'if')]
-        ok = bool(oc) and 'Config::default' in vt.show(oc[0]['args'][0])
+        ocn = wiring.override_fn(ctx)[0]['name'].split('::')[-1]
+        oc = [c for c in m['calls'] if c.get('f') == ocn and any('generate_config' in vt.show(fr.get('c')) and not fr.get('neg') for fr in c['guard'] if fr.get('k') == 'if')]
+        # the configuration operand: first argument, or the receiver of the method form (`Config::default().overridden_by(&options)`)
+        ok = bool(oc) and 'Config::default' in vt.show(oc[0]['recv'] if oc[0].get('recv') is not None else oc[0]['args'][0])
         rep.check(ok, 'F4', 'main:-g-config-source', 'stored config = override_configuration(Config::default(), options)', 'the configuration written by -g is not the default configuration overridden by the given options', {'file': m['file'], 'line': m['line']})
 
 
